@@ -241,6 +241,28 @@ def check_grid(numpoly, start, stop, dims, q, graded, reverse, fails, scalar):
                         break
             if not ok:
                 fail("monomial", "order", "monomial(...) does not list the monomials of the index rows in order")
+            # the indeterminates given by name: column j of the index rows belongs to the j-th name, in whatever
+            # order the names are written
+            if ok and dims >= 2:
+                for given in (tuple("q%d" % (dims - 1 - j) for j in range(dims)),
+                              tuple("q%d" % k for k in (2, 10, 5, 1)[:dims])):
+                    mono = numpoly.monomial(a_start, a_stop, dimensions=given, cross_truncation=qval(q), graded=graded,
+                                            reverse=reverse)
+                    got_terms = []
+                    for i in range(len(want)):
+                        el = mono[i]
+                        terms = {tuple(int(v) for v in e): c for e, c in zip(el.exponents.tolist(), el.coefficients)
+                                 if numpy.any(c)}
+                        if len(terms) != 1 or list(terms.values())[0] != 1:
+                            got_terms = None
+                            break
+                        e = list(terms)[0]
+                        got_terms.append({nm: v for nm, v in zip(el.names, e) if v})
+                    exp_terms = [{nm: v for nm, v in zip(given, row) if v} for row in want]
+                    if mono.shape != (len(want),) or got_terms != exp_terms:
+                        fail("monomial", "names-given", "dimensions=%s: got %s expected %s"
+                             % (given, (got_terms or "malformed elements")[:6], exp_terms[:6]))
+                        break
         except Exception as err:
             fail("monomial", "exception", repr(err))
     return len(want) < max(1, max(sp_)) ** dims and dims >= 2
